@@ -48,6 +48,20 @@ def std_models(include_quantised=True):
                  "hi": [5.0, 20.0], "mu": [0.0, 15.0]}),
         st.just({"name": "gauss_uniform", "dims": 3, "lo": [-4.0, 0.0, -20.0],
                  "hi": [6.0, 3.0, -10.0], "mu": [1.0, 1.5, -15.0]}),
+        # ... and a bounds dictionary whose keys are in an order of their own
+        # (bounds are looked up by name: the order is free input)
+        st.sampled_from([
+            {"name": "gauss_uniform", "dims": 2, "lo": [-5.0, -2.0],
+             "hi": [5.0, 12.0], "mu": [0.0, 8.0],
+             "bounds_order": "reversed"},
+            # the likelihood peaks beyond a bound: the posterior piles up
+            # against the edge and the flow keeps proposing points outside
+            {"name": "gauss_uniform", "dims": 2, "lo": [-1.0, -10.0],
+             "hi": [1.0, 10.0], "mu": [1.5, 0.0],
+             "bounds_order": "reversed"},
+            {"name": "gauss_uniform", "dims": 3, "lo": [-4.0, 0.0, -6.0],
+             "hi": [6.0, 3.0, 2.0], "mu": [1.0, 1.5, -2.0],
+             "bounds_order": "reversed"}]),
         st.just({"name": "gauss_gauss", "dims": 2}),
         st.just({"name": "gauss_hole", "dims": 2}),
         # likelihood that is exactly zero on part of the prior volume
@@ -66,7 +80,10 @@ def std_models(include_quantised=True):
 def _fix_flow(cfg):
     # MaskedAutoregressiveFlow has no `linear_transform` argument
     if cfg["ftype"] == "maf":
-        cfg = {k: v for k, v in cfg.items() if k != "linear_transform"}
+        cfg = {k: v for k, v in cfg.items()
+               if k not in ("linear_transform", "distribution")}
+    if cfg.get("distribution", "") is None:
+        cfg = {k: v for k, v in cfg.items() if k != "distribution"}
     return cfg
 
 
@@ -84,6 +101,10 @@ def flow_cfg(max_epochs=(10, 50), ftypes=("realnvp", "maf", "nsf")):
                     "linear_transform": st.sampled_from(
                         [None, "permutation", "lu"]),
                     "batch_norm_between_layers": st.booleans(),
+                    # base distribution with a learnt acceptance network
+                    # whose normalisation is re-estimated when a training
+                    # is finalised
+                    "distribution": st.sampled_from([None, None, "lars"]),
                 },
             ).map(_fix_flow),
             "training_config": st.fixed_dictionaries(
@@ -160,6 +181,14 @@ def reparam_options(model):
             {"x1": "logit"},
             {"default": {"parameters": ["x1", "x0"]}},
             {"default": {"parameters": ["x.*"], "rescale_bounds": [0, 1]}},
+            # prior declared uniform for every parameter: the proposal then
+            # evaluates the prior in the reparameterised space
+            {"default": {"parameters": ["x.*"], "prior": "uniform"}},
+            {"default": {"parameters": ["x.*"], "prior": "uniform",
+                         "rescale_bounds": [0, 1]}},
+            {"rescaletobounds": {"parameters": ["x.*"], "prior": "uniform",
+                                 "rescale_bounds": [-2, 3],
+                                 "update_bounds": False}},
             # several regular-expression patterns (matched in listed order)
             {"default": {"parameters": ["x[1-9]", "x0"]}},
             {"rescaletobounds": {"parameters": ["x[13579]", "x[02468]"]}},
@@ -185,6 +214,10 @@ def standard_job(draw, nlive=(20, 200), resume_cycles=(0, 0),
     kw.update(draw(flow_cfg(max_epochs)))
     labels = ["model:" + model["name"], "ftype:" +
               kw["flow_config"]["ftype"]]
+    if kw["flow_config"].get("distribution"):
+        labels.append("base-dist:" + kw["flow_config"]["distribution"])
+    if model.get("bounds_order"):
+        labels.append("bounds-dict-order:" + model["bounds_order"])
     # proposal class
     pcs = proposal_classes or ["flowproposal"] * 6 + [
         "augmentedflowproposal", "clusteringflowproposal"]
@@ -299,10 +332,16 @@ def standard_job(draw, nlive=(20, 200), resume_cycles=(0, 0),
         # structural event (k-th pool population / k-th training start),
         # which reaches the boundaries a random instant rarely hits (first
         # population after the switch, between training and population)
-        if draw(st.integers(0, 2)) == 0:
+        which = draw(st.integers(0, 3))
+        if which == 0:
             kills.append({"event": draw(st.sampled_from(
                 ["population", "population", "training"])),
                 "k": draw(st.integers(1, 3))})
+        elif which == 3:
+            # between two iterations, some way into flow sampling (kills at
+            # likelihood calls all fall at the start of a population)
+            kills.append({"event": "iteration",
+                          "k": kw["nlive"] + draw(st.integers(5, 250))})
         else:
             kills.append(draw(st.floats(0.02, 0.97 if i == 0 else 0.6)))
     if kills:
@@ -339,6 +378,15 @@ def ins_models():
     return st.one_of(
         st.builds(lambda d: {"name": "gauss_uniform", "dims": d},
                   st.integers(2, 4)),
+        # parameters with different ranges, bounds dictionary in an order of
+        # its own
+        st.sampled_from([
+            {"name": "gauss_uniform", "dims": 2, "lo": [-5.0, -2.0],
+             "hi": [5.0, 12.0], "mu": [0.0, 8.0],
+             "bounds_order": "reversed"},
+            {"name": "gauss_uniform", "dims": 2, "lo": [-1.0, -10.0],
+             "hi": [1.0, 10.0], "mu": [1.5, 0.0],
+             "bounds_order": "reversed"}]),
         st.just({"name": "gauss_gauss", "dims": 2}),
         st.just({"name": "rosenbrock", "dims": 2}),
         st.just({"name": "gauss_hole", "dims": 2}),
